@@ -256,6 +256,116 @@ theorem nav_siblings (w : World) (hw : Inv w) (pm : Meta) (pbs : List DN) (hp : 
       rw [List.getElem?_eq_getElem this]
   · simp only [getPeers, hpar, hfind, hk.2.2.1]
 
+theorem natIndex_of_getElem (l : List Nat) (hn : l.Nodup) (j : Nat) {x} (h : l[j]? = some x) : natIndex x l = some j := by
+  induction l generalizing j with
+  | nil => simp at h
+  | cons y ys ih =>
+    cases j with
+    | zero => simp only [List.getElem?_cons_zero, Option.some.injEq] at h; simp [natIndex, h]
+    | succ j =>
+      simp only [List.getElem?_cons_succ] at h
+      simp only [List.nodup_cons] at hn
+      have hne : y ≠ x := fun e => hn.1 (e ▸ List.mem_of_getElem? h)
+      simp [natIndex, hne, ih hn.2 j h]
+
+/-- nextElementSibling / previousElementSibling of the `j`-th element block of an element of an
+    invariant world — computed through the cached `parentNode` and `children.index` — are the
+    neighbouring element blocks. -/
+theorem nav_element_siblings (w : World) (hw : Inv w) (pm : Meta) (pbs : List DN) (hp : (pm, pbs) ∈ elemsL w.roots)
+    (m : Meta) (k : List DN) (hmem : DN.el m k ∈ pbs) (j : Nat) (hj : (elemIds pbs)[j]? = some m.id) :
+    nextElementSibling w m = optEl (elemIds pbs)[j + 1]? ∧
+    previousElementSibling w m = (if j = 0 then Val.none else optEl (elemIds pbs)[j - 1]?) := by
+  obtain ⟨p, o, hk⟩ := world_elem_OK hw hp
+  simp only [OK_el] at hk
+  have hmk := OKL_mem hk.2.2.2.2.2 hmem
+  simp only [OK_el] at hmk
+  have hpar : m.parent = some pm.id := hmk.1
+  have hfind : w.find? pm.id = some (pm, pbs) := findL?_unique w.roots hw.nodup hp
+  have hnd : (elemIds pbs).Nodup := elemIds_nodup pbs (elemsL_nodup w.roots hw.nodup hp)
+  have hidx : natIndex m.id (elemIds pbs) = some j := natIndex_of_getElem _ hnd j hj
+  have hlt : j < (elemIds pbs).length := by
+    rcases Nat.lt_or_ge j (elemIds pbs).length with h | h
+    · exact h
+    · rw [List.getElem?_eq_none h] at hj; simp at hj
+  constructor
+  · simp only [nextElementSibling, hpar, hfind, hidx, hk.2.2.1]
+    by_cases hl : j = (elemIds pbs).length - 1
+    · rw [if_pos hl, List.getElem?_eq_none (by omega)]; rfl
+    · rw [if_neg hl]
+      have : j + 1 < (elemIds pbs).length := by omega
+      rw [List.getElem?_eq_getElem this]; rfl
+  · simp only [previousElementSibling, hpar, hfind, hidx, hk.2.2.1]
+    by_cases h0 : j = 0
+    · simp [h0]
+    · rw [if_neg h0, if_neg h0]
+      have : j - 1 < (elemIds pbs).length := by omega
+      rw [List.getElem?_eq_getElem this]; rfl
+
+/-! ## The model is defined on the domain of the property
+
+  `step` answers `none` only outside the stated precondition: every single-target call is defined as
+  soon as the target is an element of the world; the element-moving calls as soon as, in addition, the
+  element handed in is a root of the world (currently detached) and the target lies outside it. -/
+
+theorem apply_defined (w : World) (t : Nat) (loc : Meta → List DN → Option Edit × Val) (h : (w.find? t).isSome = true) :
+    (w.apply t loc).isSome = true := by
+  unfold World.apply
+  cases hf : w.find? t with
+  | none => rw [hf] at h; simp at h
+  | some r =>
+    obtain ⟨m, bs⟩ := r
+    simp only
+    cases (loc m bs).1 <;> simp
+
+/-- appendText, removeText, removeTextAll, removeChild, removeBlock, insertBefore/After of a text
+    block and setAttribute of a plain name are defined for every element of the world and all arguments. -/
+theorem single_target_calls_defined (w : World) (t : Nat) (h : (w.find? t).isSome = true) (s k v : Str) (c : Nat) (b : Blk)
+    (r : Option Blk) (hk : specialAttr k = false) :
+    (step w (.appendText t s)).isSome ∧ (step w (.removeText t s)).isSome ∧ (step w (.removeTextAll t s)).isSome ∧
+    (step w (.removeChild t c)).isSome ∧ (step w (.removeBlock t b)).isSome ∧
+    (step w (.insertBefore t (.txt s) r)).isSome ∧ (step w (.insertAfter t (.txt s) r)).isSome ∧
+    (step w (.setAttribute t k v)).isSome ∧ (step w (.appendChild t none)).isSome := by
+  have ha := fun loc => apply_defined w t loc h
+  refine ⟨?_, ?_, ?_, ?_, ?_, ?_, ?_, ?_, ?_⟩
+  · simp only [step, World.appendText]; exact ha _
+  · simp only [step, World.removeText]; exact ha _
+  · simp only [step, World.removeTextAll]; exact ha _
+  · simp only [step, World.removeChild]; exact ha _
+  · cases b with
+    | elm c => simp only [step, World.removeBlock, World.removeChild]; exact ha _
+    | txt s => simp only [step, World.removeBlock, World.removeText]; exact ha _
+  · cases r with
+    | none => simp only [step, World.insert, World.appendBlock, World.appendText, Option.isSome_map]; exact ha _
+    | some r => simp only [step, World.insert]; exact ha _
+  · cases r with
+    | none => simp only [step, World.insert, World.appendBlock, World.appendText, Option.isSome_map]; exact ha _
+    | some r => simp only [step, World.insert]; exact ha _
+  · simp only [step, World.setAttribute, hk]; exact ha _
+  · simp only [step, Option.isSome_map]; exact h
+
+/-- appendChild / appendBlock / insertBefore / insertAfter of an element are defined whenever the
+    element is a root of the world (detached) and the target is an element outside it. -/
+theorem moving_calls_defined (w : World) (t c : Nat) (ct : DN) (rest : List DN) (r : Option Blk)
+    (hc : takeRoot c w.roots = some (ct, rest)) (ht : (findL? t rest).isSome = true) :
+    (step w (.appendChild t (some c))).isSome ∧ (step w (.appendBlock t (.elm c))).isSome ∧
+    (step w (.insertBefore t (.elm c) r)).isSome ∧ (step w (.insertAfter t (.elm c) r)).isSome := by
+  have h1 : (w.appendChild t c).isSome = true := by
+    simp only [World.appendChild, hc]
+    exact apply_defined { w with roots := rest } t _ ht
+  have h2 : ∀ after, (w.insert after t (.elm c) r).isSome = true := by
+    intro after
+    cases r with
+    | none => exact h1
+    | some r =>
+      simp only [World.insert, hc]
+      cases hf : findL? t rest with
+      | none => rw [hf] at ht; simp at ht
+      | some x =>
+        obtain ⟨m, bs⟩ := x
+        simp only
+        cases indexOf r bs <;> simp
+  exact ⟨h1, h1, h2 false, h2 true⟩
+
 /-! ## Non-vacuity: a concrete history inside the model, starting from built trees -/
 
 def exSeed : FN := .el "div".toList [] false [.text "a".toList, .el "b".toList [] false [.text "x".toList], .el "br".toList [] false []]
